@@ -606,7 +606,9 @@ POOLS = {
     "Time_Period": ["2020", "2020S1", "2020S2", "2020Q1", "2020Q4", "2020M1", "2020M12", "2020W15", "2020W53",
                     "2020D15", "2020D100", "2020D366", None],
     "Time": ["2020-01-01/2020-12-31", "2020-01-01/2020-06-30", "2020-01-01/2020-03-31", "2020-01-01/2020-01-31",
-             "2020-04-06/2020-04-12", "2020-01-15/2020-01-15", "2020-01-15/2020-02-20", None],
+             "2020-04-06/2020-04-12", "2020-01-15/2020-01-15", "2020-01-15/2020-02-20",
+             # ISO weeks that straddle a year boundary (week 1 starting in December, week 53 ending in January)
+             "2019-12-30/2020-01-05", "2020-12-28/2021-01-03", None],
     "Duration": ["A", "S", "Q", "M", "W", "D", None],
     "String": [
         # numbers
